@@ -10,6 +10,7 @@ import os
 import subprocess
 import time
 
+from translate import c08_shapes
 from vlib import c08_ops as K
 from vlib import core
 
@@ -184,7 +185,10 @@ class Tally:
 def build(ctx):
     ok = True
     with core.BuildLock():
-        ctx.coq(TARGETS, theorems_in={"Props/C08"})
+        # a refusal is the broken obligation itself; Props/C08_Shapes (the only file that reads Gen/C08_Shapes.v) is then not built
+        shapes_ok = ctx.regen("c08_shapes", c08_shapes.generate)
+        targets = TARGETS + (["Props/C08_Shapes.vo"] if shapes_ok else [])
+        ctx.coq(targets, theorems_in={"Props/C08", "Props/C08_Shapes"})
         rc, out = core.sh("timeout 900 bash build.sh", cwd=os.path.join(core.VERIF, "ocaml", "C08"), timeout=930)
         ok = rc == 0 and os.path.exists(DRIVER)
         ctx.obligation("build:ocaml-driver-of-extracted-model", ok, out[-400:] if not ok else "")
@@ -193,7 +197,7 @@ def build(ctx):
 
 def small_scope_sequences():
     """every sequence of length <= 3 over a 12-operation alphabet on a 2-atom world with one selection"""
-    prelude = [("NewStruct",), ("AddNewAtom", 0, 1), ("AddNewAtom", 0, 2), ("GetSlice", 0, (0, 1, None))]
+    prelude = [("NewStruct",), ("AddNewAtom", 0, (0, 1, 1, 8)), ("AddNewAtom", 0, (1, 2, 2, 4)), ("GetSlice", 0, (0, 1, None))]
     alpha = [
         ("SetLattice", 1, -2, False), ("Append", 1, (0, 1), False), ("Extend", 0, 1, 0), ("IAdd", 0, 0),
         ("SetSlice", 0, (0, 1, None), 0, True), ("Construct", 1, -1), ("Mul", 0, 2), ("Sub", 0, 1),
